@@ -1501,6 +1501,9 @@ impl Real {
                     // add_pair requires a valid replacement
                     return Some("skip-invalid".into());
                 }
+                if pairs.iter().any(|p| p.3.is_none()) {
+                    return None;
+                }
                 let s = unsafe { (api.substitution_new?)(pairs.len()) };
                 for p in &pairs {
                     unsafe { (api.substitution_add_pair?)(s, p.0, p.2) };
@@ -1689,7 +1692,8 @@ impl Real {
             }
         };
         rep.count(&format!("fn_{rop}"));
-        let rr = if any_invalid {
+        // (a valid C handle without mirror function only exists after an earlier oracle failure)
+        let rr = if any_invalid || rsl.iter().any(|r| r.is_none()) {
             None
         } else {
             let ra: Vec<usize> = rsl.iter().map(|r| r.unwrap()).collect();
@@ -1789,6 +1793,9 @@ impl Real {
                     let msg = take_err(err);
                     rep.fail("capi-dddmp", &format!("`{line}`: export failed: {msg}"));
                     "err".to_string()
+                } else if rsl.iter().any(|r| r.is_none()) {
+                    let _ = take_err(err);
+                    "ok".to_string()
                 } else {
                     let msg = take_err(err);
                     if !msg.is_empty() {
@@ -2019,8 +2026,12 @@ fn child_main(flags: &BTreeMap<String, String>) {
 struct ChildIo {
     proc: std::process::Child,
     stdin: std::process::ChildStdin,
-    stdout: BufReader<std::process::ChildStdout>,
+    /// lines of the child's stdout (a reader thread forwards them; `None` = end of file)
+    lines: std::sync::mpsc::Receiver<Option<String>>,
 }
+
+/// how long one operation line may take in the child before it is killed
+const LINE_TIMEOUT_S: u64 = 25;
 
 struct Proxy {
     lib: String,
@@ -2056,8 +2067,25 @@ impl Proxy {
             .spawn()
             .map_err(|e| format!("cannot start the child process: {e}"))?;
         let stdin = proc.stdin.take().unwrap();
-        let stdout = BufReader::new(proc.stdout.take().unwrap());
-        self.child = Some(ChildIo { proc, stdin, stdout });
+        let mut stdout = BufReader::new(proc.stdout.take().unwrap());
+        let (tx, rx) = std::sync::mpsc::channel();
+        std::thread::spawn(move || {
+            loop {
+                let mut l = String::new();
+                match stdout.read_line(&mut l) {
+                    Ok(n) if n > 0 => {
+                        if tx.send(Some(l)).is_err() {
+                            return;
+                        }
+                    }
+                    _ => {
+                        let _ = tx.send(None);
+                        return;
+                    }
+                }
+            }
+        });
+        self.child = Some(ChildIo { proc, stdin, lines: rx });
         Ok(())
     }
     fn died(&mut self) -> String {
@@ -2086,8 +2114,10 @@ impl Scenario for Proxy {
         if let Some(c) = self.child.as_mut() {
             let mut ok = writeln!(c.stdin, "@reset").and_then(|_| c.stdin.flush()).is_ok();
             if ok {
-                let mut l = String::new();
-                ok = matches!(c.stdout.read_line(&mut l), Ok(n) if n > 0) && l.trim() == "@R";
+                ok = matches!(c.lines.recv_timeout(std::time::Duration::from_secs(LINE_TIMEOUT_S)), Ok(Some(l)) if l.trim() == "@R");
+                if !ok {
+                    let _ = c.proc.kill();
+                }
             }
             if !ok {
                 let st = self.died();
@@ -2115,10 +2145,10 @@ impl Scenario for Proxy {
         let c = self.child.as_mut().unwrap();
         let mut alive = writeln!(c.stdin, "{}", line).and_then(|_| c.stdin.flush()).is_ok();
         let mut out = None;
+        let mut hung = false;
         while alive && out.is_none() {
-            let mut l = String::new();
-            match c.stdout.read_line(&mut l) {
-                Ok(n) if n > 0 => {
+            match c.lines.recv_timeout(std::time::Duration::from_secs(LINE_TIMEOUT_S)) {
+                Ok(Some(l)) => {
                     let l = l.trim_end_matches(['\n', '\r']);
                     if let Some(o) = l.strip_prefix("@O ") {
                         out = Some(o.to_string());
@@ -2131,11 +2161,24 @@ impl Scenario for Proxy {
                         }
                     }
                 }
-                _ => alive = false,
+                Ok(None) => alive = false,
+                Err(_) => {
+                    // no answer: kill the child, the case is over
+                    hung = true;
+                    alive = false;
+                    let _ = c.proc.kill();
+                }
             }
         }
         match out {
             Some(o) => o,
+            None if hung => {
+                let _ = self.died();
+                ctx.fail("capi-hang", &format!("the process executing the C API calls did not answer within {LINE_TIMEOUT_S} s while executing `{line}`"));
+                ctx.count("child_hangs");
+                self.dead_case = Some(ctx.case.clone());
+                "HANG".into()
+            }
             None => {
                 let st = self.died();
                 ctx.fail("capi-crash", &format!("the process executing the C API calls died ({st}) while executing `{line}`"));
